@@ -786,6 +786,11 @@ class AndMaybeMatcher(AdditiveBiMatcher):
                 skipped += b.skip_to_quality(minquality - aq)
                 bq = b.block_quality()
 
+        # Leave the optional matcher on or after the required one, as next()
+        # and skip_to() do, so score() sees it when it matches the current doc
+        if a.is_active() and b.is_active() and b.id() < a.id():
+            b.skip_to(a.id())
+
         return skipped
 
     def weight(self):
